@@ -292,6 +292,9 @@ func GetOutputNodes(root *html.Node) []*html.Node {
 			return false
 
 		case html.ElementNode:
+			if !IsProbablyVisible(node) {
+				return false
+			}
 			outputNodes = append(outputNodes, node)
 			return true
 
